@@ -53,6 +53,8 @@ op = st.one_of(
     st.tuples(st.just('deleteNs'), st.integers(0, 3)),
     st.tuples(st.just('prefix'), st.integers(0, 3), st.sampled_from(PREFIXES + ['', ''])),
     st.tuples(st.just('addRule'), st.sampled_from(SELECTORS), st.booleans()),
+    st.tuples(st.just('mediaInsert'), st.sampled_from(SELECTORS), st.integers(0, 3)),
+    st.tuples(st.just('nsRuleText'), st.integers(0, 3), st.sampled_from(PREFIXES), st.sampled_from(URIS)),
     st.tuples(st.just('selectorText'), st.integers(0, 4), st.sampled_from(SELECTORS)),
     st.tuples(st.just('move'), st.integers(0, 4)),
     st.tuples(st.just('detach-reattach'), st.integers(0, 4)),
@@ -240,6 +242,45 @@ def check(case, ctx):
                             raise Violation('ns:undeclared-prefix-accepted', f'{step}: namespaces {m}; sheet {A.cssText!r}')
                     if undeclared and any(sel.split()[0] in r.selectorText for r in style_rules(A) if id(r) not in known):
                         raise Violation('ns:undeclared-prefix-accepted', f'{step}: namespaces {m}; sheet {A.cssText!r}')
+                elif kind == 'mediaInsert':
+                    # a rule given as text to an @media rule of the sheet is read with the namespaces of the sheet
+                    medias = [r for r in A.cssRules if r.type == r.MEDIA_RULE]
+                    if not medias:
+                        medias = [A.add('@media print { mm { top: 0 } }') and None or [r for r in A.cssRules if r.type == r.MEDIA_RULE][-1]]
+                    mr = medias[0]
+                    sel = o[1]
+                    m = dict(A.namespaces.items())
+                    prefixes = {p for p in ('p', 'q', 'n', 'zz') if (p + '|') in sel}
+                    undeclared = [p for p in prefixes if p not in m]
+                    n_before = mr.cssRules.length
+                    try:
+                        mr.insertRule(sel + ' { left: 1px }', min(o[2], mr.cssRules.length))
+                    except xml.dom.DOMException as e:
+                        rejected = e
+                        if not undeclared:
+                            raise Violation('ns:declared-prefix-rejected:in-media', f'{step}: {e}; namespaces {m}')
+                    else:
+                        if undeclared and mr.cssRules.length > n_before:
+                            raise Violation('ns:undeclared-prefix-accepted:in-media', f'{step}: namespaces {m}; sheet {A.cssText!r}')
+                        if not undeclared and mr.cssRules.length > n_before:
+                            ref = css.CSSStyleRule(selectorText=(sel, m), style='left: 1px')
+                            new = [r for r in mr.cssRules if r.type == r.STYLE_RULE and id(r) not in known]
+                            if new and pairs_of(new[-1]) != pairs_of(ref) and pairs_of(new[0]) != pairs_of(ref):
+                                raise Violation('ns:text-rule-in-media-resolved-without-sheet-namespaces',
+                                                f'{step}: {sel!r} gives {pairs_of(new[-1])}, with the namespaces of the sheet {pairs_of(ref)}')
+                elif kind == 'nsRuleText':
+                    rules = ns_rules(A)
+                    if rules:
+                        target = rules[o[1] % len(rules)]
+                        if target.prefix == '' or o[2] == '':
+                            continue
+                        text = '@namespace %s "%s";' % (o[2], o[3])
+                        try:
+                            target.cssText = text
+                        except xml.dom.DOMException as e:
+                            rejected = e
+                        if (target.prefix, target.namespaceURI) != (o[2], o[3]) and snapshot(A) != before:
+                            raise Violation('ns:refused-rule-text-changes-the-sheet', f'{step}: {before[0]!r} -> {A.cssText!r} (rule says {target.prefix!r} -> {target.namespaceURI!r})')
                 elif kind == 'selectorText':
                     rs = style_rules(A)
                     if rs:
@@ -332,7 +373,8 @@ SUBS = [
 def scenario_cases(tier):
     for n in ('prefix-becomes-default', 'foreign-rule-with-undeclared-namespace', 'prefix-on-default-rule', 'del-behind-import',
               'rebind-through-mapping', 'bound-prefix-redeclared-with-used-uri', 'rule-text-rebinds-uri-to-bound-prefix',
-              'default-declared-after-unprefixed-selectors', 'detached-after-rebinding', 'uri-with-escaped-quote'):
+              'default-declared-after-unprefixed-selectors', 'detached-after-rebinding', 'uri-with-escaped-quote',
+              'used-namespace-deleted-through-the-list', 'later-declaration-of-a-prefix-loses', 'hex-escaped-prefix'):
         yield {'name': n}
 
 
@@ -451,6 +493,43 @@ def check_scenario(case, ctx):
             re_ = parse(s.cssText)
             if dict(re_.namespaces.items()) != dict(s.namespaces.items()) or len(style_rules(re_)) != len(style_rules(s)):
                 raise Violation('scenario:namespace-uri-with-escaped-quote', f'{s.cssText!r} reparses to namespaces {dict(re_.namespaces.items())}')
+        elif name == 'used-namespace-deleted-through-the-list':
+            # del / pop / remove on sheet.cssRules are public ways to delete a rule
+            for how in ('del', 'pop', 'remove'):
+                s = parse('@namespace p "%s"; p|x { left: 0 }' % P)
+                r0 = s.cssRules[0]
+                try:
+                    if how == 'del':
+                        del s.cssRules[0]
+                    elif how == 'pop':
+                        s.cssRules.pop(0)
+                    else:
+                        s.cssRules.remove(r0)
+                except (xml.dom.DOMException, NotImplementedError):
+                    continue
+                try:
+                    check_sheet(s, {}, how + ' on cssRules', 'A')
+                except Violation as v:
+                    raise Violation('scenario:list-deletion-bypasses-the-in-use-check', f'{how}: {v.msg}'[:600])
+        elif name == 'later-declaration-of-a-prefix-loses':
+            # the parser lets the later of two declarations of a prefix win; an inserted rule must do the same
+            ref = parse('@namespace p "%s"; @namespace p "%s"; p|x { top: 0 }' % (P, Q))
+            want = dict(ref.namespaces.items())
+            s = parse('@namespace p "%s";' % P)
+            try:
+                s.add(css.CSSNamespaceRule(namespaceURI=Q, prefix='p'))
+            except xml.dom.DOMException:
+                return
+            if dict(s.namespaces.items()) != want:
+                raise Violation('scenario:inserted-later-declaration-of-a-prefix-is-dropped',
+                                f'add(@namespace p "{Q}") after @namespace p "{P}": mapping {dict(s.namespaces.items())}, the parser gives {want} for the same two rules')
+        elif name == 'hex-escaped-prefix':
+            s = parse('@namespace \\31 p "%s"; \\31 p|x { top: 0 }' % P)
+            before = [pairs_of(r) for r in style_rules(s)]
+            cssutils.log.raiseExceptions = False
+            after = [pairs_of(r) for r in style_rules(parse(s.cssText))]
+            if before and after != before:
+                raise Violation('scenario:hex-escaped-prefix-written-raw', f'{s.cssText!r}: {after} was {before}')
         elif name == 'rebind-through-mapping':
             s = parse('@namespace "%s"; @namespace p "%s"; a, p|b { top: 0 }' % (D, P))
             cssutils.log.raiseExceptions = True
